@@ -456,7 +456,11 @@ def evalDelete : Nat → Node → M Obj
     triggerNoCache (← curEnv)
     match node with
     | .ident name =>
-      if name == "" then pure (err "delete empty identifier") else envDelete (← curEnv) name
+      if name == "" then pure (err "delete empty identifier")
+      else do
+        -- deleting a constant is the one way to rebind it: remembered results are dropped
+        if isConstant name then modify fun st => { st with cache := [] }
+        envDelete (← curEnv) name
     | .idx "DOT" l i =>
       if i.tokType != "STRING" && i.tokType != "IDENT" then pure (err "del expression with . not a string")
       else deleteMapEntry l (.str i.literalBytes)
@@ -541,7 +545,6 @@ def applyFunction : Nat → Obj → List Obj → M Obj
         let res ← eval fuel f.body
         let fr ← getFrame nenv
         let after := fr.getMiss
-        let cantCache := fr.cantCache
         let st ← get
         let (output, outs) := match st.outs with
           | o :: rest => (chunksBytes o, rest)
@@ -549,7 +552,8 @@ def applyFunction : Nat → Obj → List Obj → M Obj
         set { st with cur := curState, outs := outs }
         if !output.isEmpty then writeOut output
         if after != before then
-          if cantCache then triggerNoCache curState
+          -- the callee depends on outer state (or called a non cacheable extension): so does its caller
+          triggerNoCache curState
           return res
         if res.isError then return res
         cacheSet f.key args res output
